@@ -270,10 +270,12 @@ func runPing(e *exec) {
 			}
 			// a reply delivered at the very instant of the invocation or of the deadline may
 			// or may not be seen by this ping: either outcome is allowed for those
-			if pl.at > r.TInv && pl.at < dead {
+			// ... except the responder's reply to this very ping: it was caused by the echo request
+			// on the wire, so it comes after the request whatever the clock says
+			caused := pl.opIdx == r.Idx
+			if (pl.at > r.TInv || caused) && pl.at < dead {
 				before++
-			}
-			if pl.at == dead || pl.at == r.TInv {
+			} else if pl.at == dead || pl.at == r.TInv {
 				atDead++
 			}
 		}
